@@ -526,6 +526,8 @@ type c29ShapeCase struct {
 	Shape  string
 	Output bool
 	Enc    []byte
+	// Multi, when set, is a "same names, other layouts" case (c29multi_test.go)
+	Multi []c29ShapeStep `json:",omitempty"`
 }
 
 func shapeFind(name string, output bool) (shapeInfo, bool) {
@@ -538,6 +540,9 @@ func shapeFind(name string, output bool) (shapeInfo, bool) {
 }
 
 func c29ShapeGen(rt *rapid.T) c29ShapeCase {
+	if c30Rare(rt, "multiABI", 3) {
+		return c29ShapeCase{Multi: c29MultiGen(rt)}
+	}
 	// rapid's index draws favour small indices; fair bits give every shape a share
 	bits := rapid.SliceOfN(rapid.Bool(), 6, 6).Draw(rt, "shapeBits")
 	idx := 0
@@ -558,6 +563,9 @@ func c29ShapeABI() (abi.ABI, error) {
 }
 
 func c29ShapeRun(c c29ShapeCase, st *vstat.Stats) error {
+	if len(c.Multi) > 0 {
+		return c29MultiRun(c, st)
+	}
 	s, ok := shapeFind(c.Shape, c.Output)
 	if !ok {
 		return fmt.Errorf("harness: unknown shape %q", c.Shape)
@@ -661,7 +669,7 @@ func shapeABIHint(a abi.ABI, name string) string {
 }
 
 func TestC29Shapes(t *testing.T) {
-	st := vstat.New(t, "C29", "second stage, beyond the four shipped types: 15 action and 2 output types a VM author can register (serialize tags, GetTypeID, Bytes/unmarshaller over codec.LinearCodec like MorpheusVM's Transfer, own codec.TypeParser registries, ABI from abi.NewABI over them and passed through JSON) covering the ABI type grammar: int8..int64, uint8..uint64, bool, string, Address, []byte, [N]uint8, [N]T, [][N]T, [N][]T, [N][M]T with N!=M, [N][M][K]T, [][]T, [][][]T, mixed slice/array nests, nested structs, []struct, [][]struct, [N]struct, [][N]struct, [N][]struct, [N][M]struct, an embedded struct, fields without json tags, named non-struct field types; values generated by a reflect-driven rapid generator (boundary-biased integers per width, JSON-hostile strings, small 0/1/7 integers, 0..3 elements per slice level with a tail of runs of 4..40 compact elements (small integers, empty strings and inner slices: binary longer than JSON), byte strings 0..300), normalised by one native encode/decode; same oracle as the first stage; non-trivial = a type with a field of >=2 array/slice dimensions and a non-zero value; distinct by type and encoding")
+	st := vstat.New(t, "C29", "second stage, beyond the four shipped types: 15 action and 2 output types a VM author can register (serialize tags, GetTypeID, Bytes/unmarshaller over codec.LinearCodec like MorpheusVM's Transfer, own codec.TypeParser registries, ABI from abi.NewABI over them and passed through JSON) covering the ABI type grammar: int8..int64, uint8..uint64, bool, string, Address, []byte, [N]uint8, [N]T, [][N]T, [N][]T, [N][M]T with N!=M, [N][M][K]T, [][]T, [][][]T, mixed slice/array nests, nested structs, []struct, [][]struct, [N]struct, [][N]struct, [N][]struct, [N][M]struct, an embedded struct, fields without json tags, named non-struct field types; values generated by a reflect-driven rapid generator (boundary-biased integers per width, JSON-hostile strings, small 0/1/7 integers, 0..3 elements per slice level with a tail of runs of 4..40 compact elements (small integers, empty strings and inner slices: binary longer than JSON), byte strings 0..300), normalised by one native encode/decode; same oracle as the first stage; non-trivial = a type with a field of >=2 array/slice dimensions and a non-zero value; distinct by type and encoding. One case in eight runs in multi-ABI mode: 2..3 type families (\"VMs\" A, B, C in their own packages and registries) that use the same type names Transfer / Order / Receipt / nested Leg / Meta with different layouts (field lists, integer widths, array lengths, field order, type ids); one case builds their ABIs and interleaves 2..8 dynamic.Marshal / UnmarshalAction / UnmarshalOutput calls across them in a drawn order, each compared with the native codec of its own family; there non-trivial = a name used through >= 2 ABIs that lay it out differently")
 	st.Assumption("this stage quantifies over types a VM author can register with the documented mechanism, not only over the four types the pinned tree registers; the type family is fixed (harness-defined), the values are generated")
 	rapid.Check(t, func(rt *rapid.T) {
 		c := c29ShapeGen(rt)
